@@ -65,6 +65,9 @@ pub enum Step {
   /// one datagram: units of one writer, reader id addressing, endianness
   Dgram { units: Vec<Unit>, to_unknown: bool, le: bool },
   Op(ReadOp),
+  /// Discovery announces the already matched writer `w` once more (same data): nothing the reader knows about
+  /// the writer may change (what it has received, its ACKNACK count, its assemblers)
+  Reannounce { w: usize },
 }
 
 #[derive(Clone, Debug)]
@@ -305,6 +308,15 @@ pub fn gen_case(rng: &mut Rng, p: &GenParams) -> Case {
       steps.push(Step::Op(gen_op(rng, flavor)));
     }
   }
+  // a quarter of the cases: the writers are announced again by discovery at random points (drawn last, so the
+  // history itself is the one the same seed always gave)
+  if rng.chance(1, 4) {
+    for _ in 0..1 + rng.below(3) {
+      let at = rng.below(steps.len() as u64 + 1) as usize;
+      let w = rng.below(writers.len() as u64) as usize;
+      steps.insert(at, Step::Reannounce { w });
+    }
+  }
   Case { flavor, writers, steps, faults }
 }
 
@@ -448,6 +460,7 @@ pub struct Outcome {
   pub nackfrags: u64,
   pub frag_samples_delivered: u64,
   pub arrival_sig: u64,
+  pub reannouncements: u64,
 }
 
 fn unit_json(u: &Unit) -> Value {
@@ -472,6 +485,7 @@ pub fn case_json(case: &Case) -> Value {
     "steps": case.steps.iter().map(|s| match s {
       Step::Dgram{units, to_unknown, le} => json!({"dgram": units.iter().map(unit_json).collect::<Vec<_>>(), "to_unknown": to_unknown, "le": le}),
       Step::Op(op) => json!({"op": format!("{op:?}")}),
+      Step::Reannounce { w } => json!({"writer_announced_again": w}),
     }).collect::<Vec<_>>(),
   })
 }
@@ -498,7 +512,7 @@ pub fn run_case(case: &Case, prop: Prop, acc: &mut Acc, case_tag: &Value) -> Out
     rb.match_writer(w.guid, true, format!("127.0.0.1:{}", 20000 + i).parse().unwrap());
   }
   let mut sh: Vec<WShadow> = case.writers.iter().map(|_| WShadow { told_below_max: 1, told_below_min: 1, ..Default::default() }).collect();
-  let mut out = Outcome { handed: 0, acknacks: 0, nackfrags: 0, frag_samples_delivered: 0, arrival_sig: 0 };
+  let mut out = Outcome { handed: 0, acknacks: 0, nackfrags: 0, frag_samples_delivered: 0, arrival_sig: 0, reannouncements: 0 };
   let mut arrivals: Vec<u8> = vec![];
   let by_guid: BTreeMap<[u8; 16], usize> = case.writers.iter().enumerate().map(|(i, w)| (w.guid, i)).collect();
   let mut by_id: BTreeMap<u32, (usize, i64)> = BTreeMap::new();
@@ -635,6 +649,10 @@ pub fn run_case(case: &Case, prop: Prop, acc: &mut Acc, case_tag: &Value) -> Out
       Step::Op(op) => {
         let res = rb.op(op);
         handle_obs(acc, &mut sh, &mut out, op, &res, step_no);
+      }
+      Step::Reannounce { w } => {
+        rb.match_writer(case.writers[*w].guid, true, format!("127.0.0.1:{}", 20000 + *w).parse().unwrap());
+        out.reannouncements += 1;
       }
       Step::Dgram { units, to_unknown, le } => {
         let bytes = build_dgram(case, units, reader_eid, &own_prefix, *to_unknown, *le, step_no % 3 == 0);
